@@ -39,7 +39,7 @@ def wireHypothesesHold (P : Prims) (s : Suite) (sek svk rnd p : Bytes) : Bool :=
   match encryptVal P s sek svk Fdo.Gen.Schemas.s_Encrypt0 rnd p with
   | some (t, inner, _) =>
     (match tunnelSchema t with
-     | some sch => (marshalS sch inner).isSome && conf 10000 maxDepth sch inner && wconf 10000 maxDepth sch inner
+     | some sch => (marshalS sch inner).isSome && conf (fun _ => true) 10000 maxDepth sch inner && wconf 10000 maxDepth sch inner
      | none => false)
   | none => false
 
